@@ -320,3 +320,22 @@ M('c05-asgi-length-backfill-for-bodiless-status', 'C05', 'R5', G,
 """, """                (data is not None or not resp.stream)
                 and 'content-length' not in resp._headers
 """)
+
+# ------------------- R7 (wave 7, s7-c05-3): the number rendered into the status line is the int()-normalised code,
+# never the raw argument -- read alike from f-strings, str.format, % and concatenation
+M('c05-status-fstring-renders-raw-argument', 'C05', 'R7', 'falcon/util/misc.py',
+  "        return '{} {}'.format(code, _DEFAULT_HTTP_REASON)\n", "        return f'{status} {_DEFAULT_HTTP_REASON}'\n")
+M('c05-status-format-renders-raw-argument', 'C05', 'R7', 'falcon/util/misc.py',
+  "        return '{} {}'.format(code, _DEFAULT_HTTP_REASON)\n", "        return '{} {}'.format(status, _DEFAULT_HTTP_REASON)\n")
+M('c05-status-percent-renders-raw-argument', 'C05', 'R7', 'falcon/util/misc.py',
+  "        return '{} {}'.format(code, _DEFAULT_HTTP_REASON)\n", "        return '%s %s' % (status, _DEFAULT_HTTP_REASON)\n")
+M('c05-status-concat-renders-raw-argument', 'C05', 'R7', 'falcon/util/misc.py',
+  "        return '{} {}'.format(code, _DEFAULT_HTTP_REASON)\n", "        return str(status) + ' ' + _DEFAULT_HTTP_REASON\n")
+M('c05-status-fstring-without-space', 'C05', 'R7', 'falcon/util/misc.py',
+  "        return '{} {}'.format(code, _DEFAULT_HTTP_REASON)\n", "        return f'{code}{_DEFAULT_HTTP_REASON}'\n")
+M2('c05-status-fstrings-range-check-dropped', 'C05', 'R7', [
+    {'file': 'falcon/util/misc.py', 'old': "        return '{} {}'.format(code, _DEFAULT_HTTP_REASON)\n", 'new': "        return f'{code} {_DEFAULT_HTTP_REASON}'\n"},
+    {'file': 'falcon/util/misc.py', 'old': """    if not 100 <= code <= 999:
+        raise ValueError('{!r} is not a valid status code'.format(status))
+""", 'new': ""},
+])
